@@ -30,11 +30,11 @@ def version():
     except Exception as e:
         return 'unknown'
 
-def run(gen_path, modules, rlimit=30, threads=16, seed=None, cache_dir=None, extra=None, timeout=3000):
+def run(gen_path, modules, rlimit=30, threads=16, seed=None, cache_dir=None, extra=None, timeout=3000, multiple_errors=20):
     """returns dict: cmd, wall_s, diags (list of error dicts), verified, errors, func_times, ok_run(bool), raw_err"""
     text = open(gen_path, 'rb').read()
     cmd = [VERUS, os.path.basename(gen_path), '--error-format=json', '--output-json', '--time',
-           '--multiple-errors', '20', '--rlimit', str(rlimit), '--num-threads', str(threads)]
+           '--multiple-errors', str(multiple_errors), '--rlimit', str(rlimit), '--num-threads', str(threads)]
     for m in modules:
         cmd += ['--verify-module', m]
     if seed is not None:
